@@ -71,15 +71,23 @@ def gen(ctx):
         # references and the model are exact)
         obs = obs.astype(rng.choice(["float64", "float64", "float64",
                                      "int32", "int16", "int64"]))
-        lat = np.array([rng.randrange(-80, 81, 5) + rng.choice([0, 0.5])
+        # station coordinates and decimal years are not binary32 numbers:
+        # the grid stores their rounded values
+        lat = np.array([rng.randrange(-80, 81, 5)
+                        + rng.choice([0, 0.5, 0.1, 0.4, -0.3])
                         for _ in range(n)], dtype=float)
-        lon = np.array([rng.randrange(-170, 171, 5) + rng.choice([0, 0.25])
+        lon = np.array([rng.randrange(-170, 171, 5)
+                        + rng.choice([0, 0.25, 0.2, 0.7])
                         for _ in range(n)], dtype=float)
         # time axes counted from a distant epoch (hours since 1900 ...): a
         # window is narrow relative to its bounds, yet its bounds differ
         t, c = [], rng.choice([0.0, 0.0, 0.0, 2.0 ** 20, 1.5e6])
-        for _ in range(T):
-            c += rng.choice([1.0, 1.0, 2.0, 0.5])
+        step12 = rng.random() < 0.25          # monthly steps in years
+        if step12:
+            c = 1950.0
+        for k in range(T):
+            c = (1950.0 + (k + 1) / 12.0) if step12 else \
+                c + rng.choice([1.0, 1.0, 2.0, 0.5])
             t.append(c)
         wins = []
         for _ in range(rng.randint(1, 4)):
@@ -207,6 +215,25 @@ def run_case(ctx, c, terms=None):
                     obs.shape == want_code.shape:
                 b = [w[k] for k in ("time_min", "time_max", "lat_min",
                                     "lat_max", "lon_min", "lon_max")]
+                # the bounds are Python floats: numpy compares them with the
+                # binary32 axes in binary32; the model compares exactly.  A
+                # bound lying between a sample and its binary32 neighbour is
+                # not modelled (the search below still covers it)
+                exact_ok = True
+                for ax, lo, hi in ((c["t"], b[0], b[1]),
+                                   (c["lat"], b[2], b[3]),
+                                   (c["lon"], b[4], b[5])):
+                    a32 = ax.astype("float32")
+                    a64 = a32.astype("float64")
+                    if not (np.array_equal(a32 >= lo, a64 >= lo)
+                            and np.array_equal(a32 <= hi, a64 <= hi)):
+                        exact_ok = False
+                if not exact_ok:
+                    ctx.stat("window bound within binary32 rounding of a "
+                             "sample (model skipped)")
+                    b = None
+            if terms is not None and w is not None and \
+                    obs.shape == want_code.shape and b is not None:
                 terms["win"].append(
                     f"({lq(c['t'].astype('float32'))}, "
                     f"{lq(c['lat'].astype('float32'))}, "
